@@ -81,4 +81,19 @@ Definition run_lower (cmd : string) (arg : sexp) : sexp :=
       end
     | _ => bad "lower_dot: expected (d1 d2 dout graph)"
     end
+  else if String.eqb cmd "lower_einsum_dot" then
+    match arg with
+    | L [d1; d2; dout; g] =>
+      match dec_dims d1, dec_dims d2, dec_dims dout, dTm 500 g with
+      | Some d1, Some d2, Some dout, Some g =>
+        match single d1, single d2, single dout with
+        | Some p1, Some p2, Some pout =>
+          let m := lower_einsum_dot p1 p2 pout in
+          L [A "lower"; sB (einsum_dot_ok p1 p2 pout); sB (equiv m g); sB (wf_tm m); sB (wf_tm g); sNat (tsize (norm m)); sNat (tsize (norm g))]
+        | _, _, _ => A "not_single"
+        end
+      | _, _, _, _ => bad "lower_einsum_dot: cannot decode"
+      end
+    | _ => bad "lower_einsum_dot: expected (d1 d2 dout graph)"
+    end
   else bad "lower: unknown command".
